@@ -12,26 +12,63 @@ variable {α : Type}
 @[simp] theorem size_setNext (h : Heap α) (i v : Nat) : (setNext h i v).size = h.size := by simp [setNext]
 @[simp] theorem size_setPrev (h : Heap α) (i v : Nat) : (setPrev h i v).size = h.size := by simp [setPrev]
 @[simp] theorem size_setVal (h : Heap α) (i : Nat) (v : α) : (setVal h i v).size = h.size := by simp [setVal]
+@[simp] theorem size_initNode (h : Heap α) (r : Nat) : (initNode h r).size = h.size := by simp [initNode]
+
+theorem rawNext_setNext (h : Heap α) (i v j : Nat) :
+    rawNext (setNext h i v) j = if j = i ∧ i < h.size then some v else rawNext h j := by
+  unfold rawNext setNext
+  rw [Array.getElem?_modify]
+  by_cases hij : i = j
+  · subst hij
+    by_cases hi : i < h.size <;> simp [hi]
+  · have : ¬ (j = i ∧ i < h.size) := fun ⟨a, _⟩ => hij a.symm
+    simp [hij, this]
+
+theorem rawPrev_setPrev (h : Heap α) (i v j : Nat) :
+    rawPrev (setPrev h i v) j = if j = i ∧ i < h.size then some v else rawPrev h j := by
+  unfold rawPrev setPrev
+  rw [Array.getElem?_modify]
+  by_cases hij : i = j
+  · subst hij
+    by_cases hi : i < h.size <;> simp [hi]
+  · have : ¬ (j = i ∧ i < h.size) := fun ⟨a, _⟩ => hij a.symm
+    simp [hij, this]
+
+@[simp] theorem rawPrev_setNext (h : Heap α) (i v j : Nat) : rawPrev (setNext h i v) j = rawPrev h j := by
+  unfold rawPrev setNext
+  rw [Array.getElem?_modify]
+  by_cases hij : i = j
+  · subst hij; cases h[i]? <;> simp
+  · simp [hij]
+
+@[simp] theorem rawNext_setPrev (h : Heap α) (i v j : Nat) : rawNext (setPrev h i v) j = rawNext h j := by
+  unfold rawNext setPrev
+  rw [Array.getElem?_modify]
+  by_cases hij : i = j
+  · subst hij; cases h[i]? <;> simp
+  · simp [hij]
+
+@[simp] theorem rawNext_setVal (h : Heap α) (i : Nat) (v : α) (j : Nat) : rawNext (setVal h i v) j = rawNext h j := by
+  unfold rawNext setVal
+  rw [Array.getElem?_modify]
+  by_cases hij : i = j
+  · subst hij; cases h[i]? <;> simp
+  · simp [hij]
+
+@[simp] theorem rawPrev_setVal (h : Heap α) (i : Nat) (v : α) (j : Nat) : rawPrev (setVal h i v) j = rawPrev h j := by
+  unfold rawPrev setVal
+  rw [Array.getElem?_modify]
+  by_cases hij : i = j
+  · subst hij; cases h[i]? <;> simp
+  · simp [hij]
 
 theorem nx_setNext (h : Heap α) (i v j : Nat) :
     nx (setNext h i v) j = if j = i ∧ i < h.size then v else nx h j := by
-  unfold nx setNext
-  rw [Array.getElem?_modify]
-  by_cases hij : i = j
-  · subst hij
-    by_cases hi : i < h.size <;> simp [hi]
-  · have : ¬ (j = i ∧ i < h.size) := fun ⟨a, _⟩ => hij a.symm
-    simp [hij, this]
+  unfold nx; rw [rawNext_setNext]; split <;> simp
 
 theorem pv_setPrev (h : Heap α) (i v j : Nat) :
     pv (setPrev h i v) j = if j = i ∧ i < h.size then v else pv h j := by
-  unfold pv setPrev
-  rw [Array.getElem?_modify]
-  by_cases hij : i = j
-  · subst hij
-    by_cases hi : i < h.size <;> simp [hi]
-  · have : ¬ (j = i ∧ i < h.size) := fun ⟨a, _⟩ => hij a.symm
-    simp [hij, this]
+  unfold pv; rw [rawPrev_setPrev]; split <;> simp
 
 theorem vl_setVal [Inhabited α] (h : Heap α) (i : Nat) (v : α) (j : Nat) :
     vl (setVal h i v) j = if j = i ∧ i < h.size then v else vl h j := by
@@ -43,22 +80,13 @@ theorem vl_setVal [Inhabited α] (h : Heap α) (i : Nat) (v : α) (j : Nat) :
   · have : ¬ (j = i ∧ i < h.size) := fun ⟨a, _⟩ => hij a.symm
     simp [hij, this]
 
-@[simp] theorem pv_setNext (h : Heap α) (i v j : Nat) : pv (setNext h i v) j = pv h j := by
-  unfold pv setNext
-  rw [Array.getElem?_modify]
-  by_cases hij : i = j
-  · subst hij; cases h[i]? <;> simp
-  · simp [hij]
+@[simp] theorem pv_setNext (h : Heap α) (i v j : Nat) : pv (setNext h i v) j = pv h j := by simp [pv]
+@[simp] theorem nx_setPrev (h : Heap α) (i v j : Nat) : nx (setPrev h i v) j = nx h j := by simp [nx]
+@[simp] theorem nx_setVal (h : Heap α) (i : Nat) (v : α) (j : Nat) : nx (setVal h i v) j = nx h j := by simp [nx]
+@[simp] theorem pv_setVal (h : Heap α) (i : Nat) (v : α) (j : Nat) : pv (setVal h i v) j = pv h j := by simp [pv]
 
 @[simp] theorem vl_setNext [Inhabited α] (h : Heap α) (i v j : Nat) : vl (setNext h i v) j = vl h j := by
   unfold vl setNext
-  rw [Array.getElem?_modify]
-  by_cases hij : i = j
-  · subst hij; cases h[i]? <;> simp
-  · simp [hij]
-
-@[simp] theorem nx_setPrev (h : Heap α) (i v j : Nat) : nx (setPrev h i v) j = nx h j := by
-  unfold nx setPrev
   rw [Array.getElem?_modify]
   by_cases hij : i = j
   · subst hij; cases h[i]? <;> simp
@@ -71,29 +99,70 @@ theorem vl_setVal [Inhabited α] (h : Heap α) (i : Nat) (v : α) (j : Nat) :
   · subst hij; cases h[i]? <;> simp
   · simp [hij]
 
-@[simp] theorem nx_setVal (h : Heap α) (i : Nat) (v : α) (j : Nat) : nx (setVal h i v) j = nx h j := by
-  unfold nx setVal
-  rw [Array.getElem?_modify]
-  by_cases hij : i = j
-  · subst hij; cases h[i]? <;> simp
-  · simp [hij]
+/-! `init()` is invisible to the logical links: a nil link already counted as a self link -/
 
-@[simp] theorem pv_setVal (h : Heap α) (i : Nat) (v : α) (j : Nat) : pv (setVal h i v) j = pv h j := by
-  unfold pv setVal
+theorem rawNext_initNode (h : Heap α) (r j : Nat) :
+    rawNext (initNode h r) j = if j = r ∧ r < h.size then some (nx h r) else rawNext h j := by
+  unfold initNode nx rawNext
   rw [Array.getElem?_modify]
-  by_cases hij : i = j
-  · subst hij; cases h[i]? <;> simp
+  by_cases hij : r = j
+  · subst hij
+    by_cases hi : r < h.size <;> simp [hi]
+  · have : ¬ (j = r ∧ r < h.size) := fun ⟨a, _⟩ => hij a.symm
+    simp [hij, this]
+
+theorem rawPrev_initNode (h : Heap α) (r j : Nat) :
+    rawPrev (initNode h r) j = if j = r ∧ r < h.size then some (pv h r) else rawPrev h j := by
+  unfold initNode pv rawPrev
+  rw [Array.getElem?_modify]
+  by_cases hij : r = j
+  · subst hij
+    by_cases hi : r < h.size <;> simp [hi]
+  · have : ¬ (j = r ∧ r < h.size) := fun ⟨a, _⟩ => hij a.symm
+    simp [hij, this]
+
+@[simp] theorem nx_initNode (h : Heap α) (r j : Nat) : nx (initNode h r) j = nx h j := by
+  show (rawNext (initNode h r) j).getD j = nx h j
+  rw [rawNext_initNode]
+  split
+  · next hc => obtain ⟨rfl, _⟩ := hc; simp
+  · rfl
+
+@[simp] theorem pv_initNode (h : Heap α) (r j : Nat) : pv (initNode h r) j = pv h j := by
+  show (rawPrev (initNode h r) j).getD j = pv h j
+  rw [rawPrev_initNode]
+  split
+  · next hc => obtain ⟨rfl, _⟩ := hc; simp
+  · rfl
+
+@[simp] theorem vl_initNode [Inhabited α] (h : Heap α) (r j : Nat) : vl (initNode h r) j = vl h j := by
+  unfold initNode vl
+  rw [Array.getElem?_modify]
+  by_cases hij : r = j
+  · subst hij; cases h[r]? <;> simp
   · simp [hij]
 
 theorem nx_push (h : Heap α) (n : Node α) (j : Nat) :
-    nx (h.push n) j = if j = h.size then n.next else nx h j := by
-  unfold nx
+    nx (h.push n) j = if j = h.size then n.next.getD h.size else nx h j := by
+  unfold nx rawNext
   rw [Array.getElem?_push]
   by_cases hj : j = h.size <;> simp [hj]
 
 theorem pv_push (h : Heap α) (n : Node α) (j : Nat) :
-    pv (h.push n) j = if j = h.size then n.prev else pv h j := by
-  unfold pv
+    pv (h.push n) j = if j = h.size then n.prev.getD h.size else pv h j := by
+  unfold pv rawPrev
+  rw [Array.getElem?_push]
+  by_cases hj : j = h.size <;> simp [hj]
+
+theorem rawNext_push (h : Heap α) (n : Node α) (j : Nat) :
+    rawNext (h.push n) j = if j = h.size then n.next else rawNext h j := by
+  unfold rawNext
+  rw [Array.getElem?_push]
+  by_cases hj : j = h.size <;> simp [hj]
+
+theorem rawPrev_push (h : Heap α) (n : Node α) (j : Nat) :
+    rawPrev (h.push n) j = if j = h.size then n.prev else rawPrev h j := by
+  unfold rawPrev
   rw [Array.getElem?_push]
   by_cases hj : j = h.size <;> simp [hj]
 
@@ -226,10 +295,12 @@ theorem IsRing.rotate {h : Heap α} {a : Nat} {xs : List Nat} (hr : IsRing h (a 
 /-! ### `Link` -/
 
 theorem link_fst (h : Heap α) (r s : Nat) :
-    (link h r (some s)).1 = setNext (setPrev (setPrev (setNext h r s) s r) (nx h r) (pv h s)) (pv h s) (nx h r) := rfl
+    (link h r (some s)).1 =
+      setNext (setPrev (setPrev (setNext (initNode (initNode h r) s) r s) s r) (nx h r) (pv h s)) (pv h s) (nx h r) := by
+  simp only [link, nx_initNode, pv_initNode]
 @[simp] theorem link_snd (h : Heap α) (r : Nat) (s : Option Nat) : (link h r s).2 = nx h r := by
-  cases s <;> rfl
-@[simp] theorem link_none (h : Heap α) (r : Nat) : (link h r none).1 = h := rfl
+  cases s <;> simp [link]
+@[simp] theorem link_none (h : Heap α) (r : Nat) : (link h r none).1 = initNode h r := rfl
 
 @[simp] theorem size_link (h : Heap α) (r : Nat) (s : Option Nat) : (link h r s).1.size = h.size := by
   cases s <;> simp [link]
@@ -241,12 +312,12 @@ theorem link_fst (h : Heap α) (r s : Nat) :
 theorem nx_link (h : Heap α) (r s : Nat) (hr : r < h.size) (hp : pv h s < h.size) (x : Nat) :
     nx (link h r (some s)).1 x = if x = pv h s then nx h r else if x = r then s else nx h x := by
   rw [link_fst, nx_setNext]
-  simp only [size_setPrev, size_setNext, hp, and_true, nx_setPrev, nx_setNext, hr]
+  simp only [size_setPrev, size_setNext, size_initNode, hp, and_true, nx_setPrev, nx_setNext, hr, nx_initNode]
 
 theorem pv_link (h : Heap α) (r s : Nat) (hs : s < h.size) (hn : nx h r < h.size) (y : Nat) :
     pv (link h r (some s)).1 y = if y = nx h r then pv h s else if y = s then r else pv h y := by
   rw [link_fst, pv_setNext, pv_setPrev]
-  simp only [size_setPrev, size_setNext, hn, and_true, pv_setPrev, pv_setNext, hs]
+  simp only [size_setPrev, size_setNext, size_initNode, hn, and_true, pv_setPrev, pv_setNext, hs, pv_initNode]
 
 theorem IsRing.head_lt {h : Heap α} {a : Nat} {xs : List Nat} (hr : IsRing h (a :: xs)) : a < h.size :=
   hr.2.2.2.2 a (by simp)
@@ -510,7 +581,7 @@ theorem newLoop_spec [Inhabited α] (v : α) (k : Nat) (h : Heap α) (p : Nat) (
   | succ k ih =>
     simp only [newLoop]
     set q := h.size with hq
-    set h1 := h.push { next := q, prev := p, val := v } with hh1
+    set h1 := h.push { next := none, prev := some p, val := v } with hh1
     set h2 := setNext h1 p q with hh2
     have s1 : h1.size = h.size + 1 := by simp [hh1]
     have s2 : h2.size = h.size + 1 := by simp [hh2, s1]
@@ -521,10 +592,10 @@ theorem newLoop_spec [Inhabited α] (v : α) (k : Nat) (h : Heap α) (p : Nat) (
     have nx2 : ∀ x, nx h2 x = if x = p then q else if x = q then q else nx h x := by
       intro x
       rw [hh2, nx_setNext, hh1, nx_push]
-      simp only [Array.size_push, show p < h.size + 1 by omega, and_true]
+      simp only [Array.size_push, show p < h.size + 1 by omega, and_true, Option.getD_none]
       rfl
     have pv2 : ∀ x, pv h2 x = if x = q then p else pv h x := by
-      intro x; rw [hh2, pv_setNext, hh1, pv_push]
+      intro x; rw [hh2, pv_setNext, hh1, pv_push]; rfl
     have vl2 : ∀ x, vl h2 x = if x = q then v else vl h x := by
       intro x; rw [hh2, vl_setNext, hh1, vl_push]
     refine ⟨by omega, ?_, ?_, ?_, by simp, ?_, ?_, ?_⟩
@@ -558,7 +629,7 @@ theorem new_spec [Inhabited α] (h : Heap α) (n : Nat) (v : α) :
   have hk : (((n + 1 : Nat) : Int)).toNat - 1 = n := by omega
   simp only [Ring.new, hpos, if_false, hk]
   set r := h.size with hr
-  set h0 := h.push { next := r, prev := r, val := v } with hh0
+  set h0 := h.push { next := none, prev := none, val := v } with hh0
   have s0 : h0.size = h.size + 1 := by simp [hh0]
   obtain ⟨i1, i2, i3, i4, _, i6, i7, i8⟩ := newLoop_spec v n h0 r (by omega)
   rw [s0] at i1 i2 i3 i8
@@ -615,7 +686,7 @@ theorem wf_setVal {h : Heap α} (hw : WF h) (i : Nat) (v : α) : WF (setVal h i 
 theorem wf_link {h : Heap α} (hw : WF h) {r : Nat} (hr : r < h.size) (s : Option Nat)
     (hs : ∀ s', s = some s' → s' < h.size) : WF (link h r s).1 := by
   cases s with
-  | none => exact hw
+  | none => intro x hx; simpa using hw x (by simpa using hx)
   | some s =>
     have hs := hs s rfl
     intro x hx
@@ -639,11 +710,29 @@ theorem wf_move_lt {h : Heap α} (hw : WF h) {r : Nat} (hr : r < h.size) (n : In
   · exact iter_lt (fun x hx => (hw x hx).2.1) _ r hr
   · exact iter_lt (fun x hx => (hw x hx).1) _ r hr
 
+theorem wf_initNode {h : Heap α} (hw : WF h) (r : Nat) : WF (initNode h r) := by
+  intro x hx; simpa using hw x (by simpa using hx)
+
+theorem unlink_pos (h : Heap α) (r : Nat) (n : Int) (hn : ¬ n ≤ 0) :
+    unlink h r n = ((link (initNode h r) r (some (move h r (n + 1)))).1, some (nx h r)) := by
+  simp [unlink, hn]
+
+theorem unlink_fst (h : Heap α) (r : Nat) (n : Int) (hn : ¬ n ≤ 0) :
+    (unlink h r n).1 = (link (initNode h r) r (some (move h r (n + 1)))).1 := by
+  rw [unlink_pos h r n hn]
+
+theorem unlink_snd (h : Heap α) (r : Nat) (n : Int) (hn : ¬ n ≤ 0) :
+    (unlink h r n).2 = some (nx h r) := by
+  rw [unlink_pos h r n hn]
+
 theorem wf_unlink {h : Heap α} (hw : WF h) {r : Nat} (hr : r < h.size) (n : Int) : WF (unlink h r n).1 := by
-  unfold unlink
-  split
-  · exact hw
-  · exact wf_link hw hr _ (fun s' hs' => by cases hs'; exact wf_move_lt hw hr _)
+  by_cases hn : n ≤ 0
+  · simp only [unlink, hn, if_true]; exact hw
+  · rw [unlink_fst h r n hn]
+    have h1 : r < (initNode h r).size := by simpa using hr
+    have h2 : ∀ s', some (move h r (n + 1)) = some s' → s' < (initNode h r).size := by
+      intro s' hs'; cases hs'; simpa using wf_move_lt hw hr _
+    exact wf_link (wf_initNode hw r) h1 (some (move h r (n + 1))) h2
 
 theorem wf_alloc {h : Heap α} (hw : WF h) (v : α) : WF (alloc h v).1 := by
   intro x hx
